@@ -87,4 +87,18 @@ Theorem C01_directive_case_changes_only_in_its_name :
   forall c c' : bytes, format_compiler_directive c = Some c' -> r01_directive c c' = true.
 Proof. exact format_compiler_directive_r01. Qed.
 
+(* END TO END, on the composed model Model/Format.v: format_model (the stage models folded over the stage list GENERATED from make_formatter,
+   from the input bytes to the output bytes; tied to the implementation byte for byte and stage by stage by unit e2e). The whole of C01's
+   first sentence for the composed run, without side condition; and the stage order the model runs is the generated one. *)
+From PasfmtVerif Require Import Model.Format Proofs.FormatProofs Proofs.FormatTotalProofs Proofs.FormatWrapProofs Proofs.FormatIgnoredProofs Proofs.FormatVerbatimProofs Proofs.FormatLayoutProofs Proofs.FormatRescanProofs Proofs.FormatContentProofs Proofs.FormatMLProofs Proofs.FormatContentMLProofs Proofs.FormatEofProofs.
+Theorem C01_format_preserves_nonblank :
+  forall (alnum : bytes -> bool) (cfg : fconfig) (s out : bytes),
+  valid_utf8 s = true ->
+  format_model alnum cfg s = inl out -> fold_case (strip out) = fold_case (strip s).
+Proof. exact format_preserves_nonblank. Qed.
+
+Theorem C01_format_model_runs_the_generated_stage_list :
+  classify_all pipeline = Some make_formatter_kinds.
+Proof. exact pipeline_kinds. Qed.
+
 
